@@ -78,7 +78,8 @@ Line ==
          /\ SetStatus(n, I(Ev.info)) /\ Check(Ev.res = "ok", "setstatus", Ev.res) /\ After(n)
     [] Ev.ev = "enable" ->
          /\ TipOK /\ Enable(n, I(Ev.info))
-         /\ Check(LastRec.res = Ev.res, "enable-result", LastRec.res) /\ After(n)
+         \* ("refused": the call was refused with a text the harness does not know - error texts are not part of the property)
+         /\ Check(LastRec.res = Ev.res \/ (Ev.res = "refused" /\ LastRec.res # "ok"), "enable-result", LastRec.res) /\ After(n)
     [] Ev.ev = "enable-badpw" ->
          /\ EnableBadPw(n) /\ Check(Ev.res = "bad-password", "enable-result", "bad-password") /\ After(n)
     [] Ev.ev = "disable" ->
